@@ -67,11 +67,10 @@ package token
 // the call (C14), so it is an effect, not a function of its argument.
 //@ interface aliaser.Alias(import_ string) string effect
 
-// toExpr strips the surrounding "%" delimiters. "%" is a single byte and a single rune, so on valid UTF-8 the rune
-// view used by the code and the byte view used here agree (A7).
+// toExpr strips the surrounding "%" delimiters. The code works on runes; "%" is a single byte and a single rune, so on
+// valid UTF-8 (A7) cutting one rune off each end is cutting one byte off each end.
 //@ func toExpr pure
 //@   property C03 C12
-//@   trusted "[]rune conversions are outside the string theory; 12 lines; cross-checked by the bounded conformance test of the thorough tier"
 //@   ensures [delimited_iff] result.1 <==> (len(expr) >= 2 && hasPrefix(expr, "%") && hasSuffix(expr, "%"))
 //@   ensures [inner] result.1 ==> expr == "%" + result.0 + "%"
 //@   ensures [not_ok_empty] !result.1 ==> result.0 == ""
